@@ -2,6 +2,7 @@ package sym
 
 import (
 	"math"
+	"regexp"
 	"strconv"
 
 	"golang.org/x/tools/go/ssa"
@@ -209,6 +210,36 @@ func init() {
 			return one(st, e.tb.Bool(math.IsInf(float64(x), e.mustConcInt(args[1]))))
 		}
 		return one(st, e.tb.False)
+	})
+}
+
+var regexpCache = map[string]*regexp.Regexp{}
+
+func init() {
+	// regexp matching of *concrete* strings is done natively (same package, same pattern text read from the Regexp
+	// value); symbolic strings go through the interpreted regexp engine
+	reg("(*regexp.Regexp).MatchString", func(e *Engine, st *State, args []Value, fn *ssa.Function) []Outcome {
+		s := args[1].(*StrV)
+		p := args[0].(*PtrV)
+		if c, ok := s.Concrete(); ok && !p.IsNil() {
+			if rv, ok := e.load(st, p).(*StructV); ok && len(rv.F) > 0 {
+				if ex, ok := rv.F[0].(*StrV); ok {
+					if pat, ok := ex.Concrete(); ok {
+						re := regexpCache[pat]
+						if re == nil {
+							var err error
+							re, err = regexp.Compile(pat)
+							if err != nil {
+								return e.mergeOutcomes(e.execFunction(fn, args, nil, st))
+							}
+							regexpCache[pat] = re
+						}
+						return one(st, e.tb.Bool(re.MatchString(c)))
+					}
+				}
+			}
+		}
+		return e.mergeOutcomes(e.execFunction(fn, args, nil, st))
 	})
 }
 
